@@ -1018,14 +1018,17 @@ def v_imports(run):
         def build(form=form):
             patch_expr_end()
             sk = Skeleton()
-            kw, nxt = Pos(form), Pos('next-statement')
-            sk.facts += px_facts(kw) + [lt(kw.t, nxt.t)]
+            kw, end, nxt = Pos(form), Pos('end-of-the-statement'), Pos('next-statement')
+            # the next statement may stand on the line the import ends on (`import a; a.f()`)
+            sk.facts += px_facts(kw) + px_facts(end) + [lt(kw.t, end.t), z3.Or(lt(end.t, nxt.t), z3.And(end.l == nxt.l, end.c == nxt.c))]
             if form == 'import':
                 sk.node = kw.put(ast.Import(names=[ast.alias(name='a.b', asname=None), ast.alias(name='c', asname='d')]))
                 sk.bound = ['a', 'd']
             else:
                 sk.node = kw.put(ast.ImportFrom(module='m', names=[ast.alias(name='x', asname='y'), ast.alias(name='z', asname=None)], level=0))
                 sk.bound = ['y', 'z']
+            # what the parser records about the extent of the statement
+            sk.node.end_lineno, sk.node.end_col_offset = SInt(end.l), SInt(end.c)
             sk.nxt = nxt
             return sk
 
